@@ -640,6 +640,10 @@ pub fn scen_reopen(ctx: &Ctx) -> i32 {
         &["api", "oracle", "open", "bytes", "parse"],
         "reopen",
     );
+    // several maps in one directory (names that share stems / contain dots), each closed and opened again
+    // while the others were updated: every map must come back with its own contents
+    let mut b = b;
+    names_check(ctx, &mut b);
     finish(ctx, "reopen", &b, vec![])
 }
 
@@ -725,6 +729,20 @@ fn keys_for_bucket(n: u64, t: u64, want: usize, salt: u64) -> Vec<Vec<u8>> {
     out
 }
 
+/// keys of exactly `len` bytes (digits) whose documented hash falls into bucket `t` of `n`
+fn fixed_len_keys_for_bucket(n: u64, t: u64, len: usize, want: usize, salt: u64) -> Vec<Vec<u8>> {
+    let mut out = Vec::new();
+    let mut c: u64 = salt * 1_000_003;
+    while out.len() < want && c < salt * 1_000_003 + 3_000_000 {
+        let k = format!("{:0w$}", c, w = len).into_bytes();
+        if k.len() == len && crate::decoder::hash(&k) % n == t {
+            out.push(k);
+        }
+        c += 1;
+    }
+    out
+}
+
 /// C04: iteration under every table size and directed occupancy
 pub fn scen_iter(ctx: &Ctx) -> i32 {
     let mut rng = Rng::new(ctx.seed ^ fnv("iter"));
@@ -788,6 +806,60 @@ pub fn scen_iter(ctx: &Ctx) -> i32 {
             }
             ops.push(Op::Iter(1));
             seqs.push(Seq { kt, params: Params { bk: if v == 1 { Bk::Size(nreq) } else { Bk::Size(n) }, ..Params::buckets(1) }, ops });
+        }
+    }
+    // directed: a key record at the head of its bucket moves (its value is overwritten after the value file passed
+    // 16 KiB, so its value-offset field gets a byte wider; the key lengths fill their slot exactly) in sparse tables
+    // of 16+ buckets — the table entry is rewritten by the relink path, not by insert / delete
+    let mut ri = 0u64;
+    for n in [16u64, 64, 256, 4096] {
+        for variant in 0..(if ctx.tier_thorough { 6 } else { 2 }) {
+            ri += 1;
+            let mut r = rng.fork(5000 + ri);
+            let kt = if ri % 2 == 0 { Kt::Bytes } else { Kt::Str };
+            let mut targets: Vec<u64> = vec![0, 8, 9, 15, 16, 63, 64, 71, n / 2, n - 9, n - 8].into_iter().filter(|t| *t < n - 1).collect();
+            targets.sort();
+            targets.dedup();
+            let mut keys: Vec<Vec<u8>> = Vec::new();
+            for t in &targets {
+                if variant == 0 || r.chance(1, 2) {
+                    // alone in its bucket (next = 0): length class - 5 fills the slot exactly
+                    let len = *r.pick(&[11usize, 11, 19, 27, 43]);
+                    keys.extend(fixed_len_keys_for_bucket(n, *t, len, 1, ri));
+                    if r.chance(1, 3) {
+                        // a second key in the same bucket: class - 6 for the head (its next offset is small)
+                        keys.extend(fixed_len_keys_for_bucket(n, *t, *r.pick(&[10usize, 18, 26]), 1, ri + 100));
+                    }
+                }
+            }
+            let mut ops = Vec::new();
+            for k in &keys {
+                ops.push(Op::Put(B::Hex(k.clone()), B::Pat(1, 1)));
+            }
+            ops.push(Op::Iter(0));
+            // the filler lives in the last bucket and stays
+            let filler = fixed_len_keys_for_bucket(n, n - 1, 12, 1, ri + 200);
+            if let Some(f) = filler.first() {
+                ops.push(Op::Put(B::Hex(f.clone()), B::Pat(r.range(17_000, 20_000) as usize, 9)));
+            }
+            for (j, k) in keys.iter().enumerate() {
+                ops.push(Op::Put(B::Hex(k.clone()), B::Pat(r.range(90, 300) as usize, j as u64)));
+                if j % 3 == 0 {
+                    ops.push(Op::Iter(r.below(7) as u8));
+                }
+            }
+            for f in 0..7 {
+                ops.push(Op::Iter(f));
+            }
+            ops.push(Op::Len);
+            for (j, k) in keys.iter().enumerate() {
+                if j % 2 == 0 {
+                    ops.push(Op::Del(B::Hex(k.clone())));
+                }
+            }
+            ops.push(Op::Iter(0));
+            ops.push(Op::Iter(3));
+            seqs.push(Seq { kt, params: Params::buckets(n), ops });
         }
     }
     // plus random histories ending in traversals, all key types
@@ -1977,6 +2049,12 @@ pub fn scen_golden(ctx: &Ctx) -> i32 {
             ops.extend(cont.ops.iter().cloned());
             let seq = Seq { kt: hist.kt, params: if round % 2 == 0 { hist.params } else { Params::buckets(1) }, ops };
             let out = run_seq_with_state(&seq, &dir, &mut d, &RunOpts { cmp_end: true, decoder: true, ..Default::default() }, oracle);
+            for dd in out.diffs.iter() {
+                if dd.facet == "open" && (dd.got.starts_with("panic") || dd.got.starts_with("err")) {
+                    // judged without the model: the image was written by the pinned release, the current code must open it
+                    diffs.push(Diff { idx: dd.idx, facet: "oracle", op: format!("open the golden image {} (written by the pinned release) under the current code", g.display()), got: dd.got.clone(), want: "opens".into() });
+                }
+            }
             diffs.extend(out.diffs.iter().cloned());
             b.sequences += 1;
             b.ops += out.steps as u64;
@@ -1985,7 +2063,9 @@ pub fn scen_golden(ctx: &Ctx) -> i32 {
             if b.samples.is_empty() {
                 b.samples.push(format!("golden {} then: {}", g.display(), seq.text().chars().take(600).collect::<String>()));
             }
-            if let Some(dd) = diffs.first() {
+            // implementation-side verdicts (the current code on the released image) before model disagreements
+            let ranked = diffs.iter().find(|d| ["oracle", "golden-decoder", "decoder", "hang"].contains(&d.facet)).or(diffs.first());
+            if let Some(dd) = ranked {
                 if b.failures.len() < 3 {
                     let path = write_replay(ctx, &seq, dd.facet, &diffs, &format!("golden={}", g.display()));
                     b.failures.push(Failure { facet: dd.facet.to_string(), replay: path, detail: format!("{} | observed: {} | expected: {}", dd.op, dd.got, dd.want) });
